@@ -191,6 +191,22 @@ def lookup2 (st : St) (isDef : Bool) (x ok : Name) (m : LExp) (k : IExp) (zero :
   let st1 ← setOrDeclare st (isDef && !rdx) x (r.getD zero)
   setOrDeclare st1 (isDef && !rdok) ok (boolVal r.isSome)
 
+/-- `l = T{…}` / `x := T{…}` with expression operands: all operands of the right-hand side are evaluated (in the state
+    BEFORE the statement) and the value is built, then it is assigned — whether or not an operand reads the destination -/
+def complit (st : St) (isDef : Bool) (l : LExp) (zero : Val) (elems : List (Path × RExp)) : Except Err St :=
+  if isDef then
+    match l with
+    | .var x => do
+      let (vs, st1) ← evalAll st (elems.map (·.2))
+      let v ← buildLit zero (elems.map (·.1)) vs
+      .ok (declare st1 x v)
+    | _ => .error "ill:define"
+  else do
+    let d ← resolve st l
+    let (vs, st1) ← evalAll st (elems.map (·.2))
+    let v ← buildLit zero (elems.map (·.1)) vs
+    st1.write d v
+
 /-- `l = <-c` / `x := <-c` with the value of `r` in the channel: an assignment / declaration of the received value
     (Receive operator: "The value of the receive operation <-ch is the value received from the channel") -/
 def recv (st : St) (isDef : Bool) (l : LExp) (r : RExp) : Except Err St :=
@@ -226,6 +242,7 @@ def sop (G : Growth) (st : St) : SOp → Except Err St
   | .mapSet m k r => mapSet st m k r
   | .mapDel m k => mapDel st m k
   | .lookup2 isDef x ok m k zero rdx rdok => lookup2 st isDef x ok m k zero rdx rdok
+  | .complit isDef l _ zero elems => complit st isDef l zero elems
   | .recv isDef l r => recv st isDef l r
   | .assert2 isDef x ok r succ zero rdx rdok => assert2 st isDef x ok r succ zero rdx rdok
   | .callMut isDef l sel k arg => callMut st isDef l sel k arg
